@@ -293,6 +293,17 @@ func runSessionWorld(rc *RunCtx) (out *Outcome) {
 				break
 			}
 		}
+		// net/http sends the response head at the first Flush or Write, once: whatever Content-Type
+		// the header map holds at that call is what the client gets
+		for k, c := range core.calls {
+			if (c.Kind == "flush" || c.Kind == "write") && c.Err == nil {
+				if len(c.ContentType) != 1 || c.ContentType[0] != "text/event-stream" {
+					o.violate("C16", "header-at-commit", "writer=%s failAt=%d: the response head is committed by call %d (%s) while Content-Type is %q | ops: %s", rwShapes[shape], failAt, k, c.Kind, c.ContentType, strings.Join(log[1:], "; "))
+					return
+				}
+				break
+			}
+		}
 		if firstByte >= 0 {
 			flushedHeader := false
 			for k := 0; k < firstByte; k++ {
